@@ -4,7 +4,7 @@ from common_tb import COMMON_TB
 
 
 CFG = dict(
-    id="C15", tie="Tie.C15", n_quick=16000, n_thorough=120000, thorough_seeds=3,
+    id="C15", tie="Tie.C15", n_quick=10000, n_thorough=60000, thorough_seeds=3,
     translate=[["consts", "$COQ/gen/SqlConsts.v",
                 "$REPO/embedded/sql:sq_:EncLenLen,EncIDLen,KeyValPrefixNull,KeyValPrefixNotNull,KeyValPrefixUpperBound,MappedPrefix,RowPrefix"]],
     rule="boundary-heavy pools per SQL type (min/max/powers of two +-1 integers; +-0, subnormals, +-Inf, NaN payloads, "
